@@ -118,7 +118,7 @@ fn written_value(s: &SpecSink) -> u32 {
 
 /// For EVERY block size 1..=65535: the 4-bit code is never the reserved 0, the number of extra bits
 /// matches the code, and an RFC 9639 decoder reading (code, extra) recovers exactly the block size.
-//@ unit props=C02,C08,C15 tier=quick kind=complete timeout=300 funcs="BlockSizeSpec::from_size; BlockSizeSpec::tag; BlockSizeSpec::count_extra_bits; BlockSizeSpec::write_extra_bits; BlockSizeSpec::block_size"
+//@ unit props=C02,C08,C15,C18 tier=quick kind=complete timeout=300 funcs="BlockSizeSpec::from_size; BlockSizeSpec::tag; BlockSizeSpec::count_extra_bits; BlockSizeSpec::write_extra_bits; BlockSizeSpec::block_size"
 #[kani::proof]
 #[kani::unwind(10)]
 fn c02_block_size_code_all() {
@@ -142,7 +142,7 @@ fn c02_block_size_code_all() {
 
 /// For EVERY u32 sample rate: the code is never the forbidden 0b1111; it is either 0 ("see
 /// STREAMINFO") or an RFC 9639 decoder reading (code, extra) recovers exactly the rate.
-//@ unit props=C02,C08,C15 tier=quick kind=complete timeout=300 funcs="SampleRateSpec::from_freq; SampleRateSpec::tag; SampleRateSpec::count_extra_bits; SampleRateSpec::write_extra_bits"
+//@ unit props=C02,C08,C15,C18 tier=quick kind=complete timeout=300 funcs="SampleRateSpec::from_freq; SampleRateSpec::tag; SampleRateSpec::count_extra_bits; SampleRateSpec::write_extra_bits"
 #[kani::proof]
 #[kani::unwind(10)]
 fn c02_sample_rate_code_all() {
@@ -169,7 +169,7 @@ fn c02_sample_rate_code_all() {
 
 /// Sample-size codes per the RFC table; widths without a code map to 0 ("see STREAMINFO"); the
 /// reserved code 3 is never produced.
-//@ unit props=C02,C15 tier=quick kind=complete timeout=120 funcs="SampleSizeSpec::from_bits; SampleSizeSpec::into_tag; SampleSizeSpec::from_tag; SampleSizeSpec::into_bits"
+//@ unit props=C02,C15,C18 tier=quick kind=complete timeout=120 funcs="SampleSizeSpec::from_bits; SampleSizeSpec::into_tag; SampleSizeSpec::from_tag; SampleSizeSpec::into_bits"
 #[kani::proof]
 #[kani::unwind(4)]
 fn c02_sample_size_code_all() {
